@@ -208,12 +208,21 @@ impl IngredientList {
         let mut categorized = CategorizedIngredientList::default();
         for (name, quantity) in self.0 {
             if let Some(info) = iifno.get(name.as_str()) {
-                categorized
+                // several names of the list can share the same common name,
+                // their quantities are merged. No units are converted here, so
+                // an empty converter is enough: nothing is lost, quantities
+                // with the same unit are added.
+                use std::collections::btree_map::Entry;
+                let list = categorized
                     .categories
                     .entry(info.category.to_string())
-                    .or_default()
-                    .0
-                    .insert(info.common_name.to_string(), quantity);
+                    .or_default();
+                match list.0.entry(info.common_name.to_string()) {
+                    Entry::Vacant(e) => {
+                        e.insert(quantity);
+                    }
+                    Entry::Occupied(mut e) => e.get_mut().merge(&quantity, &Converter::empty()),
+                }
             } else {
                 categorized.other.0.insert(name, quantity);
             }
